@@ -68,9 +68,12 @@ func TestEngineGenesis(t *testing.T) {
 		// ---- contracts with storage ---------------------------------------------------------------------------
 		var universe []common.Address
 		nContracts := 1 + r.Intn(4)
+		if directed && nContracts < 3 {
+			nContracts = 3
+		}
 		for i := 0; i < nContracts; i++ {
 			code := []byte{0x60, byte(i), 0x00}
-			if r.Chance(1, 3) {
+			if r.Chance(1, 3) || (directed && i < 2) { // the first epoch always has two contracts with one and the same byte code
 				code = codeStorer
 			}
 			a := c.deployRuntime(fmt.Sprintf("gen-%d-%d", epoch, i), code)
